@@ -357,6 +357,23 @@ def judge_file_loader():
                 bad = ('code-table-file-load-stale-or-wrong', {'step': i, 'text': t, 'got': repr(got), 'expected': repr(ref_trace_codes(t))})
                 break
             got.clear()                                # a caller that modifies what it was given must not poison later loads
+        # a table of the caller named RELATIVE to the working directory, under the customary file name of such tables (and a path object,
+        # a ./ path, a sub-directory): what is loaded is that file
+        import pathlib
+        cwd = os.getcwd()
+        try:
+            os.chdir(d)
+            os.mkdir('tables')
+            for rel in ('trace.codes', './trace.codes', pathlib.Path('trace.codes'), 'tables/trace.codes', 'a.codes'):
+                with open(rel, 'w') as f:
+                    f.write('0x7 MINE\n0x40c0010 BSC_mine\n')
+                got = dict(from_trace_codes_file(rel))
+                if not bad and got != {7: 'MINE', 0x40c0010: 'BSC_mine'}:
+                    bad = ('code-table-file-load-stale-or-wrong', {'relative_path': str(rel), 'got_n': len(got), 'expected': "{7: 'MINE', 0x40c0010: 'BSC_mine'}"})
+            os.unlink('tables/trace.codes')
+            os.rmdir('tables')
+        finally:
+            os.chdir(cwd)
         # large tables whose lines end exactly at / next to 2^k characters (k = 9..17: every plausible read-buffer size), LF and CRLF
         for k in range(9, 18):
             for delta in (-1, 0, 1):
@@ -424,7 +441,7 @@ class C19(Check):
             for a in first:
                 for rest in [()] + [(b,) for b in kinds]:
                     ls = [line(*a)] + [line(*b) for b in rest]
-                    for eol in ('\n', '\r\n'):
+                    for eol in ('\n', '\r\n', '\r'):
                         bad = judge_text(ls, eol)
                         acc.case(nontrivial=len(ls) >= 2, transitions=1, outcome=h64(tuple(ls)) if len(ls) == 1 else None)
                         if bad:
@@ -438,7 +455,7 @@ class C19(Check):
             kinds = [(i, n, 0, t) for i in range(6) for n in (0, 3) for t in (0, 1)]
             for combo in itertools.product(kinds, repeat=3):
                 ls = [line(*k) for k in combo]
-                for eol in ('\n', '\r\n'):
+                for eol in ('\n', '\r\n', '\r'):
                     bad = judge_text(ls, eol)
                     acc.case(nontrivial=True, transitions=1)
                     if bad:
